@@ -17,6 +17,8 @@ import Blue.Proofs.PsiWtCsa
 import Blue.Proofs.PsiDoc
 import Blue.Proofs.CsaExists
 import Blue.Proofs.C19Audit
+import Blue.Proofs.Huffman
+import Blue.Proofs.HuffmanHeap
 /-! # Property C19 — the compressed text index answers every query as the uncompressed text would;
     bit vectors answer access/rank/select as a plain bit array
 
@@ -80,8 +82,19 @@ What is still **not** proved and is tied by correspondence only (harness `c19.rs
 
 * that SA-IS (`sais.rs`) returns the sorted permutation of the suffixes — the hypothesis
   `l.Perm (suffixes T)` + `Pairwise lexLt` of the index theorems, decided per generated text;
-* the Huffman code construction (`encoder.rs`): the wavelet-tree theorems take the code book as a
-  parameter with the decidable hypothesis "prefix free", decided per input on the REAL code book;
+* the Huffman code construction (`encoder.rs`) is now MODELLED and proved (block `Huffman` below,
+  `Blue/Model/Huffman.lean`): merge loop (with the `BinaryHeap`'s tie-breaking: `huffmanHeap`; with a
+  sorted list: `huffman`; nondeterministically: `Outcome`), depths, canonical code, bit reversal, the
+  one-symbol case.  For every table of distinct symbols the book has exactly the symbols, is prefix
+  free in the form `wavelet_tree_is_reference` asks for (so that hypothesis is discharged:
+  `wavelet_tree_over_huffman`; with the encoder built from the text itself, as prefix.rs does, no
+  hypothesis is left: `wavelet_tree_of_text`), is complete (Kraft sum one), has no word longer than `n - 1`, and the
+  Fibonacci table reaches `n - 1` under every tie-breaking (the heap model is proved to be a min-heap,
+  hence one of the outcomes).  What stays tied by correspondence only:
+  that the REAL code book equals the model's (today the driver still only decides prefix-freeness of
+  the real book per input; no request compares the two books), `f64` weights (exact below `2^53`)
+  and the `u32` / `u8` widths (the model agrees with the code up to length 32: a Fibonacci text of
+  14 930 351 symbols has a 33-bit word, where `32 - len` underflows in `build_code_book`);
   and the wavelet-tree ψ model keeps each row's tree as its symbol list with the reference
   `rank_q` / `select_q` (it only ever asks about symbols that occur in the row:
   `psi_asks_occurring_symbols`, which is where `wavelet_tree_is_reference` applies);
@@ -771,6 +784,202 @@ example : Blue.Rrr.accessRank (Blue.Rrr.construct [true, false, true]) 3 = none
     ∧ Blue.RrrCf.accessRank (Blue.RrrCf.construct [true, false, true]) 3 = some (false, 2) :=
   ⟨(access_rank_at_len [true, false, true]).2.1, (access_rank_at_len [true, false, true]).2.2.1⟩
 
+-- BEGIN Huffman
+/-! ## the Huffman code construction (`HuffmanEncoder::construct`, scrunch/src/encoder.rs:216-255)
+
+`Blue.Huffman.huffmanHeap` is the construction with the tie-breaking of `std`'s `BinaryHeap`,
+`Blue.Huffman.huffman` the same with a sorted list as the priority queue (a new node goes after the
+nodes of equal weight), `Blue.Huffman.Outcome` the construction up to tie-breaking (any two minimal
+nodes may be merged).  The three differ in the LENGTHS they give on ties (example below); the
+theorems hold for all of them because, but for the Fibonacci family, they hold for the canonical
+code of EVERY binary tree over the symbols (`huffman_every_tree`).  Frequencies need not be positive
+for any of them.  Kraft's equality is stated without fractions: `Σ 2^(L - len) = 2^L`. -/
+
+/-- the canonical code book of ANY binary tree whose leaves are the distinct symbols `syms`: exactly
+    those symbols; prefix free as `wavelet_tree_is_reference` needs it; complete; no word longer than
+    `|syms| - 1` (one symbol: the one-bit code) -/
+theorem huffman_every_tree (t : Blue.Huffman.HTree) (syms : List Nat)
+    (hperm : (Blue.Huffman.leaves t).Perm syms) (hnd : syms.Nodup) :
+    ((Blue.Huffman.codeBook t).map (·.1)).Perm syms
+    ∧ Blue.Wavelet.prefixFreeB (Blue.Huffman.codeBook t) = true
+    ∧ (2 ≤ syms.length → ∀ L, syms.length ≤ L + 1 →
+        Blue.Huffman.kraftSum L (Blue.Huffman.codeBook t) = 2 ^ L)
+    ∧ (∀ en ∈ Blue.Huffman.codeBook t, 1 ≤ en.2.2 ∧ en.2.2 ≤ max 1 (syms.length - 1)) :=
+  Blue.Huffman.tree_code_book t syms hperm hnd
+
+/-- the code book has exactly the input symbols (distinct input symbols: each once) -/
+theorem huffman_symbols (freqs : List (Nat × Nat)) :
+    ((Blue.Huffman.huffman freqs).map (·.1)).Perm (freqs.map (·.1)) :=
+  Blue.Huffman.huffman_symbols freqs
+
+/-- no code word is a (least-significant-bit-first) prefix of another, every length is at least one,
+    every code fits its length: the hypothesis `hpf` of `wavelet_tree_is_reference`, for every table
+    of distinct symbols (one symbol included) -/
+theorem huffman_prefix_free (freqs : List (Nat × Nat)) (hnd : (freqs.map (·.1)).Nodup) :
+    Blue.Wavelet.prefixFreeB (Blue.Huffman.huffman freqs) = true :=
+  Blue.Huffman.huffman_prefix_free freqs hnd
+
+/-- exactly one symbol: the one-bit code `0`, not the empty code (encoder.rs:247-248) -/
+theorem huffman_single (s w : Nat) : Blue.Huffman.huffman [(s, w)] = [(s, 0, 1)] :=
+  Blue.Huffman.huffman_single s w
+
+/-- Kraft's equality `Σ 2^(-len) = 1` (scaled by `2^L`, any `L ≥ n - 1`): the code is complete, the
+    wavelet tree has no dead branch -/
+theorem huffman_kraft (freqs : List (Nat × Nat)) (hnd : (freqs.map (·.1)).Nodup) (h2 : 2 ≤ freqs.length)
+    (L : Nat) (hL : freqs.length ≤ L + 1) :
+    Blue.Huffman.kraftSum L (Blue.Huffman.huffman freqs) = 2 ^ L :=
+  Blue.Huffman.huffman_kraft freqs hnd h2 L hL
+
+/-- every length is between one and `n - 1` -/
+theorem huffman_depth_bound (freqs : List (Nat × Nat)) (hnd : (freqs.map (·.1)).Nodup) :
+    ∀ en ∈ Blue.Huffman.huffman freqs, 1 ≤ en.2.2 ∧ en.2.2 ≤ max 1 (freqs.length - 1) :=
+  Blue.Huffman.huffman_depth_bound freqs hnd
+
+/-- … and the bound is reached: the table with Fibonacci frequencies `1, 1, 2, 3, 5, …` of `n ≥ 2`
+    symbols has a code word of length `n - 1` (so lengths do not fit 16 — or 32 — bits in general) -/
+theorem huffman_fibonacci_depth (n : Nat) (hn : 2 ≤ n) :
+    ∃ en ∈ Blue.Huffman.huffman (Blue.Huffman.fibTable n), en.2.2 = n - 1 :=
+  Blue.Huffman.huffman_fibonacci_depth n hn
+
+/-- … under EVERY tie-breaking: whichever two minimal nodes each step merges (the `BinaryHeap`
+    included, as a min-heap), the Fibonacci table ends in a tree with a word of length `n - 1` -/
+theorem huffman_fibonacci_depth_any_ties (n : Nat) (hn : 2 ≤ n) (t : Blue.Huffman.HTree)
+    (h : Blue.Huffman.Outcome (Blue.Huffman.initial (Blue.Huffman.fibTable n)) t) :
+    ∃ en ∈ Blue.Huffman.codeBook t, en.2.2 = n - 1 :=
+  Blue.Huffman.outcome_fibonacci_depth n hn t h
+
+/-- the sorted-list loop is one of the outcomes of the nondeterministic construction, and every
+    outcome has the four properties -/
+theorem huffman_outcomes (freqs : List (Nat × Nat)) (hnd : (freqs.map (·.1)).Nodup) :
+    (∀ t, Blue.Huffman.buildTree freqs = some t → Blue.Huffman.Outcome (Blue.Huffman.initial freqs) t)
+    ∧ ∀ t, Blue.Huffman.Outcome (Blue.Huffman.initial freqs) t →
+      ((Blue.Huffman.codeBook t).map (·.1)).Perm (freqs.map (·.1))
+      ∧ Blue.Wavelet.prefixFreeB (Blue.Huffman.codeBook t) = true
+      ∧ (2 ≤ freqs.length → ∀ L, freqs.length ≤ L + 1 →
+          Blue.Huffman.kraftSum L (Blue.Huffman.codeBook t) = 2 ^ L)
+      ∧ (∀ en ∈ Blue.Huffman.codeBook t, 1 ≤ en.2.2 ∧ en.2.2 ≤ max 1 (freqs.length - 1)) :=
+  ⟨fun t h => Blue.Huffman.buildTree_outcome freqs t h,
+   fun t h => Blue.Huffman.outcome_code_book freqs hnd t h⟩
+
+/-- decoding the concatenated code words (bit-serial, least significant bit first, as the wavelet
+    tree walks them) of a symbol list returns the list -/
+theorem huffman_decode_encode (freqs : List (Nat × Nat)) (hnd : (freqs.map (·.1)).Nodup) (text : List Nat)
+    (hin : ∀ q ∈ text, q ∈ freqs.map (·.1)) :
+    Blue.Huffman.decodeBits (Blue.Huffman.huffman freqs) 0 0
+      (Blue.Huffman.encodeBits (Blue.Huffman.huffman freqs) text) = text :=
+  Blue.Huffman.decode_encode freqs hnd text hin
+
+/-- `wavelet_tree_is_reference` with the prefix-code hypothesis DISCHARGED: over the Huffman book of
+    any table of distinct symbols and any text over those symbols, the tree exists, `access` is the
+    reference, `rank_q` / `select_q` of every occurring symbol are the reference, at every argument -/
+theorem wavelet_tree_over_huffman (freqs : List (Nat × Nat)) (hnd : (freqs.map (·.1)).Nodup) (text : List Nat)
+    (hin : ∀ q ∈ text, q ∈ freqs.map (·.1)) :
+    ∃ w, Blue.Wavelet.construct (Blue.Huffman.huffman freqs) text = some w ∧ Blue.Wavelet.len w = text.length
+      ∧ (∀ x, Blue.Wavelet.access w x = Blue.WaveletRef.access text x)
+      ∧ (∀ q, q ∈ text → ∀ x, Blue.Wavelet.rankQ w q x = Blue.WaveletRef.rankQ text q x
+          ∧ Blue.Wavelet.selectQ w q x = Blue.WaveletRef.selectQ text q x) :=
+  Blue.Huffman.wavelet_tree_over_huffman freqs hnd text hin
+
+/-- the same for the construction WITH THE `BinaryHeap`'S TIE-BREAKING (`push` / `pop` /
+    `sift_up` / `sift_down_to_bottom` of `std` over `Reverse<Node>`): symbols, prefix freedom,
+    Kraft's equality, depth bound … -/
+theorem huffman_heap_code_book (freqs : List (Nat × Nat)) (hnd : (freqs.map (·.1)).Nodup) :
+    ((Blue.Huffman.huffmanHeap freqs).map (·.1)).Perm (freqs.map (·.1))
+    ∧ Blue.Wavelet.prefixFreeB (Blue.Huffman.huffmanHeap freqs) = true
+    ∧ (2 ≤ freqs.length → ∀ L, freqs.length ≤ L + 1 →
+        Blue.Huffman.kraftSum L (Blue.Huffman.huffmanHeap freqs) = 2 ^ L)
+    ∧ (∀ en ∈ Blue.Huffman.huffmanHeap freqs, 1 ≤ en.2.2 ∧ en.2.2 ≤ max 1 (freqs.length - 1)) :=
+  Blue.Huffman.huffmanHeap_code_book freqs hnd
+
+/-- … and the wavelet tree over it -/
+theorem wavelet_tree_over_huffman_heap (freqs : List (Nat × Nat)) (hnd : (freqs.map (·.1)).Nodup) (text : List Nat)
+    (hin : ∀ q ∈ text, q ∈ freqs.map (·.1)) :
+    ∃ w, Blue.Wavelet.construct (Blue.Huffman.huffmanHeap freqs) text = some w ∧ Blue.Wavelet.len w = text.length
+      ∧ (∀ x, Blue.Wavelet.access w x = Blue.WaveletRef.access text x)
+      ∧ (∀ q, q ∈ text → ∀ x, Blue.Wavelet.rankQ w q x = Blue.WaveletRef.rankQ text q x
+          ∧ Blue.Wavelet.selectQ w q x = Blue.WaveletRef.selectQ text q x) :=
+  Blue.Huffman.wavelet_tree_over_huffmanHeap freqs hnd text hin
+
+/-- NO hypothesis left: `WaveletTree::construct(symbols)` builds its encoder from the symbols
+    themselves (`E::construct(symbols)`, prefix.rs:350; `bookOfText` = frequencies in ascending
+    symbol order, then the heap construction).  For EVERY text the tree exists and answers `access`
+    everywhere and `rank_q` / `select_q` of every occurring symbol like the reference -/
+theorem wavelet_tree_of_text (text : List Nat) :
+    ∃ w, Blue.Wavelet.construct (Blue.Huffman.bookOfText text) text = some w ∧ Blue.Wavelet.len w = text.length
+      ∧ (∀ x, Blue.Wavelet.access w x = Blue.WaveletRef.access text x)
+      ∧ (∀ q, q ∈ text → ∀ x, Blue.Wavelet.rankQ w q x = Blue.WaveletRef.rankQ text q x
+          ∧ Blue.Wavelet.selectQ w q x = Blue.WaveletRef.selectQ text q x) :=
+  Blue.Huffman.wavelet_tree_of_text text
+
+/-- the heap model IS a min-heap construction: `push` / `pop` keep the heap order and `pop` returns a
+    minimal node (`Blue/Proofs/HuffmanHeap.lean`), so the tree it builds is an outcome of the
+    nondeterministic construction (two minimal nodes merged at every step) … -/
+theorem huffman_heap_is_outcome (freqs : List (Nat × Nat)) (t : Blue.Huffman.HTree)
+    (h : Blue.Huffman.heapTree freqs = some t) :
+    Blue.Huffman.Outcome (Blue.Huffman.initial freqs) t :=
+  Blue.Huffman.heapTree_outcome freqs t h
+
+/-- … and the Fibonacci depth holds with the `BinaryHeap`'s own tie-breaking, for every `n ≥ 2` -/
+theorem huffman_heap_fibonacci_depth (n : Nat) (hn : 2 ≤ n) :
+    ∃ en ∈ Blue.Huffman.huffmanHeap (Blue.Huffman.fibTable n), en.2.2 = n - 1 :=
+  Blue.Huffman.huffmanHeap_fibonacci_depth n hn
+
+/-! ### non-vacuity of the `Huffman` block -/
+
+/-- the code book for frequencies `a:5 b:2 c:1 d:1` (symbols 10..13), both models; its bits -/
+example : Blue.Huffman.huffman [(10, 5), (11, 2), (12, 1), (13, 1)] = [(10, 0, 1), (11, 1, 2), (12, 3, 3), (13, 7, 3)]
+    ∧ Blue.Huffman.huffmanHeap [(10, 5), (11, 2), (12, 1), (13, 1)] = [(10, 0, 1), (11, 1, 2), (12, 3, 3), (13, 7, 3)] := by
+  decide
+example : Blue.Huffman.encodeBits (Blue.Huffman.huffman [(10, 5), (11, 2), (12, 1), (13, 1)]) [12, 10, 13, 11]
+      = [true, true, false, false, true, true, true, true, false]
+    ∧ Blue.Huffman.kraftSum 3 (Blue.Huffman.huffman [(10, 5), (11, 2), (12, 1), (13, 1)]) = 8 := by decide
+/-- the hypotheses of the theorems at this table, and the theorems instantiated -/
+example : (([(10, 5), (11, 2), (12, 1), (13, 1)] : List (Nat × Nat)).map (·.1)).Nodup := by decide
+example : Blue.Huffman.decodeBits (Blue.Huffman.huffman [(10, 5), (11, 2), (12, 1), (13, 1)]) 0 0
+      (Blue.Huffman.encodeBits (Blue.Huffman.huffman [(10, 5), (11, 2), (12, 1), (13, 1)]) [12, 10, 13, 11])
+      = [12, 10, 13, 11] :=
+  huffman_decode_encode _ (by decide) _ (by decide)
+example : ∃ w, Blue.Wavelet.construct (Blue.Huffman.huffman [(10, 5), (11, 2), (12, 1), (13, 1)]) [12, 10, 13, 11, 10] = some w
+      ∧ Blue.Wavelet.len w = 5 := by
+  obtain ⟨w, hw, hl, _⟩ := wavelet_tree_over_huffman [(10, 5), (11, 2), (12, 1), (13, 1)] (by decide) [12, 10, 13, 11, 10] (by decide)
+  exact ⟨w, hw, hl⟩
+example : Blue.Huffman.kraftSum 3 (Blue.Huffman.huffman [(10, 5), (11, 2), (12, 1), (13, 1)]) = 2 ^ 3 :=
+  huffman_kraft _ (by decide) (by decide) 3 (by decide)
+/-- the Fibonacci table of 6 symbols and its depth-5 code words; the theorem at `n = 6` -/
+example : Blue.Huffman.fibTable 6 = [(0, 1), (1, 1), (2, 2), (3, 3), (4, 5), (5, 8)]
+    ∧ Blue.Huffman.huffman (Blue.Huffman.fibTable 6) = [(0, 15, 5), (1, 31, 5), (2, 7, 4), (3, 3, 3), (4, 1, 2), (5, 0, 1)]
+    ∧ Blue.Huffman.huffmanHeap (Blue.Huffman.fibTable 6) = Blue.Huffman.huffman (Blue.Huffman.fibTable 6) := by decide
+example : ∃ en ∈ Blue.Huffman.huffman (Blue.Huffman.fibTable 6), en.2.2 = 5 := huffman_fibonacci_depth 6 (by decide)
+example : ∃ en ∈ Blue.Huffman.huffmanHeap (Blue.Huffman.fibTable 6), en.2.2 = 5 := huffman_heap_fibonacci_depth 6 (by decide)
+example : (Blue.Huffman.heapTree (Blue.Huffman.fibTable 6)).isSome = true
+    ∧ ∀ t, Blue.Huffman.heapTree (Blue.Huffman.fibTable 6) = some t →
+        Blue.Huffman.Outcome (Blue.Huffman.initial (Blue.Huffman.fibTable 6)) t :=
+  ⟨by decide, fun t h => huffman_heap_is_outcome _ t h⟩
+example : ∀ t, Blue.Huffman.buildTree (Blue.Huffman.fibTable 6) = some t →
+    Blue.Huffman.Outcome (Blue.Huffman.initial (Blue.Huffman.fibTable 6)) t :=
+  (huffman_outcomes (Blue.Huffman.fibTable 6) (by decide)).1
+/-- beyond 32 bits: a text of 14 930 351 symbols with Fibonacci frequencies over 34 symbols has a 33-bit
+    code word (model with the heap's tie-breaking), where `build_code_book`'s `32 - len` (u8) underflows -/
+example : ((Blue.Huffman.fibTable 34).map (·.2)).sum = 14930351
+    ∧ Blue.Huffman.maxLen (Blue.Huffman.huffmanHeap (Blue.Huffman.fibTable 34)) = 33 := by decide
+/-- the tie-breaking matters for the code book: seven symbols, five of weight 1 and two of weight 2 -/
+example : Blue.Huffman.huffmanHeap [(1, 1), (2, 1), (3, 1), (4, 1), (5, 1), (6, 2), (7, 2)]
+      = [(1, 2, 3), (2, 6, 3), (3, 1, 3), (4, 5, 3), (5, 3, 3), (6, 7, 3), (7, 0, 2)]
+    ∧ Blue.Huffman.huffman [(1, 1), (2, 1), (3, 1), (4, 1), (5, 1), (6, 2), (7, 2)]
+      = [(1, 2, 3), (2, 6, 3), (3, 1, 3), (4, 5, 3), (5, 3, 3), (6, 0, 2), (7, 7, 3)] := by decide
+/-- the crate's own unit test `huffman_chars` (encoder.rs:382-391, text `BananaMississippi`): the
+    values it asserts for `i s a n p B M` are the model's -/
+example : Blue.Huffman.huffmanHeap [(66, 1), (77, 1), (97, 3), (105, 4), (110, 2), (112, 2), (115, 4)]
+    = [(66, 7, 4), (77, 15, 4), (97, 1, 3), (105, 0, 2), (110, 5, 3), (112, 3, 3), (115, 2, 2)] := by decide
+/-- … from the text itself (`B a n a n a M i s s i s s i p p i`), through `freqsOf` -/
+example : Blue.Huffman.freqsOf [66, 97, 110, 97, 110, 97, 77, 105, 115, 115, 105, 115, 115, 105, 112, 112, 105]
+      = [(66, 1), (77, 1), (97, 3), (105, 4), (110, 2), (112, 2), (115, 4)]
+    ∧ Blue.Huffman.bookOfText [66, 97, 110, 97, 110, 97, 77, 105, 115, 115, 105, 115, 115, 105, 112, 112, 105]
+      = [(66, 7, 4), (77, 15, 4), (97, 1, 3), (105, 0, 2), (110, 5, 3), (112, 3, 3), (115, 2, 2)] := by decide
+example : Blue.Huffman.huffman [(7, 3)] = [(7, 0, 1)] ∧ Blue.Huffman.huffmanHeap [(7, 3)] = [(7, 0, 1)]
+    ∧ Blue.Huffman.huffman [] = [] := by decide
+-- END Huffman
+
 end Blue.Props.C19
 
 #print axioms Blue.Props.C19.partitionBy_spec
@@ -831,3 +1040,19 @@ end Blue.Props.C19
 #print axioms Blue.Props.C19.compressed_retrieve_is_record
 #print axioms Blue.Props.C19.compressed_len_and_empty_needle
 #print axioms Blue.Props.C19.compressed_document_exists
+#print axioms Blue.Props.C19.huffman_every_tree
+#print axioms Blue.Props.C19.huffman_symbols
+#print axioms Blue.Props.C19.huffman_prefix_free
+#print axioms Blue.Props.C19.huffman_single
+#print axioms Blue.Props.C19.huffman_kraft
+#print axioms Blue.Props.C19.huffman_depth_bound
+#print axioms Blue.Props.C19.huffman_fibonacci_depth
+#print axioms Blue.Props.C19.huffman_fibonacci_depth_any_ties
+#print axioms Blue.Props.C19.huffman_outcomes
+#print axioms Blue.Props.C19.huffman_decode_encode
+#print axioms Blue.Props.C19.wavelet_tree_over_huffman
+#print axioms Blue.Props.C19.huffman_heap_code_book
+#print axioms Blue.Props.C19.wavelet_tree_over_huffman_heap
+#print axioms Blue.Props.C19.huffman_heap_is_outcome
+#print axioms Blue.Props.C19.huffman_heap_fibonacci_depth
+#print axioms Blue.Props.C19.wavelet_tree_of_text
